@@ -11,7 +11,7 @@ Line-protocol driver for C12. Every request is `<op> <int> …`; lists are lengt
   rt  <order> <env> <Hatoms> isStart implH mark                    label stored by the reader for a tetrahedron
   wa  n0 n1 n2 n3 <adj1> <adj2> <Hatoms> stored               writer mark of an allene
   ra  n0 n1 n2 n3 <ord1> <ord2> <Hatoms> mark                 label stored by the reader for an allene
-  po  tokens…                                                 parser neighbour-order bookkeeping
+  rdb endsDistinct shareRing <ringSizes>                      double bond reported as stereogenic (chiral_cis_trans)
 Response: `ok <value>` or `err <PythonExceptionName>`; `bad` for a malformed request line.
 -/
 open ChythonModel.Py ChythonModel.Model.Stereo
@@ -121,6 +121,14 @@ def handleInts (op : String) (xs : List Int) : Option String :=
       let (hs, r) ← takeList r
       match r with
       | [mark] => some (showRes (readerAlleneSign (endsOf n0 n1 n2 n3) a1 a2 (hFun hs) (mark != 0)))
+      | _ => none
+    | _ => none
+  | "rdb" =>
+    match xs with
+    | d :: sh :: r => do
+      let (sizes, r) ← takeList r
+      match r with
+      | [] => some (if cisTransStereogenic (d != 0) (sh != 0) sizes then "ok 1" else "ok 0")
       | _ => none
     | _ => none
   | _ => none
